@@ -26,9 +26,22 @@ Print Assumptions C09_no_method_405.
 (* a returned message is sent with the default success code for the method filled in if it had none
    (2.05 for GET/FETCH, 2.02 for DELETE, 2.04 otherwise), payload and options untouched *)
 Theorem C09_returned_message : forall s r methods m, handled s r methods -> r_outcome r = Return (VMsg m) ->
+  is_response (final_code r m) = true ->
   final_message (Some s) r = Some (fill_defaults r m).
 Proof. exact returned_message. Qed.
 Print Assumptions C09_returned_message.
+(* the hypothesis is void when the handler set no code: every default code is a response code *)
+Theorem C09_default_code_is_response : forall c, is_response (default_code c) = true.
+Proof. exact default_code_is_response. Qed.
+Print Assumptions C09_default_code_is_response.
+(* ... and a returned message whose code is not a response code (EMPTY, a request code, 6.xx / 7.xx) is treated like any
+   other wrong return value: bare 5.00 (Resource.render raises since a9de195; before, the bogus message was sent as a
+   message of our own and the request stayed unanswered — former finding C09:non-response-code-sent) *)
+Theorem C09_returned_non_response_code : forall s r methods m, handled s r methods -> r_outcome r = Return (VMsg m) ->
+  is_response (final_code r m) = false ->
+  final_message (Some s) r = Some bare_500.
+Proof. exact returned_non_response_code. Qed.
+Print Assumptions C09_returned_non_response_code.
 Theorem C09_fill_defaults_spec : forall r m,
   m_code (fill_defaults r m) = Some (match m_code m with Some c => c | None => default_code (r_code r) end) /\
   m_payload (fill_defaults r m) = m_payload m /\ m_cf (fill_defaults r m) = m_cf m /\
@@ -191,21 +204,21 @@ Theorem C09_response_on_wire_at_once : forall s r m, is_response (code_of m) = t
   exists t mid, snd (send_message s r m) = [mk_wire r t mid m] /\ is_answer (r_id r) (mk_wire r t mid m) = true.
 Proof. exact response_on_wire_at_once. Qed.
 Print Assumptions C09_response_on_wire_at_once.
-(* OPEN FINDING C09:non-response-code-sent — "whatever the handler does" fails for a returned Message whose code is not a
-   response code (EMPTY, a request code, 6.xx/7.xx): the whole response branch of send_message is skipped, the message goes
-   out as a CON/NON of our own carrying the request's token, a CON request only gets its empty ACK, no response follows *)
+(* the message layer itself still skips its whole response branch for a message whose code is not a response code
+   (messagemanager.py `if message.code.is_response():`): such a message would go out as a CON/NON of our own.  Since a9de195
+   Resource.render never lets one through; resources with their own render_to_pipe and to_message() renderers are assumed to
+   produce response codes (plugin assumption) *)
 Theorem C09_send_message_non_response : forall s r m, is_response (code_of m) = false -> send_message s r m = send_plain s r m.
 Proof. exact send_message_non_response. Qed.
 Print Assumptions C09_send_message_non_response.
-Theorem C09_non_response_code_refuted :
+Example C09_non_response_code_example :
   let r := {| r_id := 0; r_remote := 0; r_token := [7]; r_mid := 7; r_con := true; r_code := GET; r_path := [1]; r_nr := None; r_obs := None;
               r_slow := false; r_outcome := Return (VMsg (mk_msg GET [120])) |} in
   let srv := Some [([1], Plain [GET])] in
-  finalising srv r /\ final_message srv r = Some (mk_msg GET [120]) /\
-  map (fun o => map (fun w => (w_type w, w_mid w, w_code w, w_token w)) (fst (fst o))) (fst (run_script srv 100 [Req r; Tick 100000]))
-  = [[(T_CON, 100, GET, [7])]; [(T_ACK, 7, EMPTY, [])]].
+  finalising srv r /\ final_message srv r = Some bare_500 /\
+  map (fun o => map (fun w => (w_type w, w_mid w, w_code w, w_token w, w_payload w)) (fst (fst o))) (fst (run_script srv 100 [Req r; Tick 100000]))
+  = [[(T_ACK, 7, 160, [7], [])]; []].
 Proof. cbv zeta. split; [exact I|]. split; vm_compute; reflexivity. Qed.
-Print Assumptions C09_non_response_code_refuted.
 
 (* ---- the datagrams of whole runs (the real [run], from the initial state) ---- *)
 (* In every run — any arrivals incl. token reuse, any completions, failures, time steps, ACKs — the non-empty datagrams that
